@@ -885,20 +885,6 @@ func encMP(ms []metric, o *mpOpt) []byte {
 	return b
 }
 
-func pbValid(ms []metric) bool {
-	for i := range ms {
-		if !utf8.Valid(ms[i].Name) {
-			return false
-		}
-		for _, t := range ms[i].Tags {
-			if !utf8.Valid(t[0]) || !utf8.Valid(t[1]) {
-				return false
-			}
-		}
-	}
-	return true
-}
-
 // the generated protobuf code of the repo's own .proto (what a Go client would use)
 func encPB(ms []metric) []byte {
 	var src pb.MetricBatch
@@ -1255,6 +1241,10 @@ func targeted(r *verifx.Rng) [][]byte {
 	out = append(out, append(le(append([]byte(nil), head...), 0), 2, 'a', 'b', byte(r.Range(0, 1)), 0, 0, 0, 0))
 	good := encTL([]metric{genMetric(r, true)}, 0)
 	out = append(out, append(append([]byte(nil), good...), [][]byte{{0x39, 0x02, 0x58, 0x57, 0, 0, 0, 0}, {1, 2, 3}, {0x39, 0x02, 0x58, 0x56}, {0x39, 0x02, 0x58, 0x56, 0, 0, 0, 0, 0, 0, 0, 0}}[r.Intn(4)]...))
+	// the minimised packets of the defects found on the pinned tree (Props/C13: bomb14, pbUnpacked, pbPacked, pbBadPacked)
+	for _, hx := range []string{"81a76d657472696373ddffffffff", "cac106080a0175300530ac02", "cac106080a0175320305ac02", "cac1060c320a09616161616161616180"} {
+		out = append(out, verifx.UnHex(hx))
+	}
 	goodMP := encMP([]metric{genMetric(r, true)}, &mpOpt{})
 	out = append(out, append(append([]byte(nil), goodMP...), [][]byte{{0x90}, {0x80}, {0xc1}, {0xde, 0}, {0x81, 0xa1}}[r.Intn(5)]...))
 	return out
@@ -1502,6 +1492,9 @@ func main() {
 				m := genMetric(r, true)
 				if len(m.Name) > 300 {
 					m.Name = m.Name[:300]
+					for !utf8.Valid(m.Name) { // do not cut a rune in half: protobuf strings must be valid UTF-8
+						m.Name = m.Name[:len(m.Name)-1]
+					}
 				}
 				ms = append(ms, m)
 			}
